@@ -293,6 +293,7 @@ class ContainerEngine:
         nops = rng.choice([3, 4, 5, 6] if tier == "quick"
                           else [4, 6, 8, 9])
         ops = []
+        last_user = {}
         sampled_faults = rng.random() < 0.5
         while len(ops) < nops:
             if ops and rng.random() < 0.15:
@@ -306,6 +307,21 @@ class ContainerEngine:
                            "name": rng.choice(NAMES),
                            "comment": rng.choice(COMMENTS)},
                   "dt": rng.choice([0.5, 3.0, 60.0, -5.0])}
+            lk = (op["container"], op["curve"])
+            if lk in last_user:
+                # same curve again: every subset of the user fields changes
+                # (a re-save may differ in the name only, the rating only..)
+                u = dict(last_user[lk])
+                for fld in ("rate", "name", "comment"):
+                    if rng.random() < 0.5:
+                        u[fld] = op["user"][fld]
+                op["user"] = u
+                if rng.random() < 0.5:
+                    op["variant"] = last_user[lk].get("_variant",
+                                                      op["variant"])
+            last_user[lk] = dict(op["user"], _variant=op["variant"])
+            op["user"] = {k: v for k, v in op["user"].items()
+                          if not k.startswith("_")}
             if sampled_faults and rng.random() < 0.3:
                 op["fault"] = {"seam": "h5write", "at": rng.randint(1, 47),
                                "exc": rng.choice(["ENOSPC", "EIO"]),
